@@ -84,7 +84,7 @@ class _Adversarial:
     """a generator that honours numpy's contract in the least helpful way: without replacement it returns distinct
     (spread-out) elements, with replacement it returns the same element every time"""
 
-    def choice(self, a, size=None, replace=True, p=None):
+    def choice(self, a, size=None, replace=True, p=None, axis=0, shuffle=True):
         n = int(a)
         k = int(size)
         if replace:
